@@ -7,7 +7,7 @@ fn k_err_payload_identity() {
   assert!(c.downcast_ref::<u32>() == Some(&v), "err.downcast: downcast_ref to the original type does not yield the original value");
   assert!(e.downcast_ref::<u32>() == Some(&v), "err.downcast: original changed by clone");
   assert!(c.downcast_ref::<u8>().is_none(), "err.downcast: downcast to a different type succeeded");
-  assert!(std::sync::Arc::ptr_eq(&e.inner, &c.inner), "err.clone: clone does not share the payload");
+  assert!(Arc::ptr_eq(&e.inner, &c.inner), "err.clone: clone does not share the payload");
   assert!(c.is::<u32>() && !c.is::<u16>(), "err.is: type test differs");
   kani::cover!(true, "harness reaches its end");
 }
@@ -26,7 +26,18 @@ fn k_err_through_sink_error() {
   sctl.sink_error(e.clone());
   let got = seen.get().unwrap();
   assert!(log.is(&[EV_E]), "err.delivery: the error did not reach the subscriber exactly once as the only event");
-  assert!(std::sync::Arc::ptr_eq(&e.inner, &got.inner), "err.identity: the subscriber received a different payload object");
+  assert!(Arc::ptr_eq(&e.inner, &got.inner), "err.identity: the subscriber received a different payload object");
   assert!(got.downcast_ref::<u16>() == Some(&v), "err.identity: payload value changed on the way");
+  kani::cover!(true, "harness reaches its end");
+}
+
+// the other constructor: an error built from a Result::Err keeps the Err payload itself (same type, same value)
+#[kani::proof]
+fn k_err_from_result_payload() {
+  let v: u32 = kani::any();
+  let r: Result<u8, u32> = Err(v);
+  let e = RxError::from_result(r);
+  assert!(e.downcast_ref::<u32>() == Some(&v), "err.downcast: from_result does not keep the Err payload (downcast_ref to the original type fails or differs)");
+  assert!(e.is::<u32>(), "err.is: from_result changed the payload type");
   kani::cover!(true, "harness reaches its end");
 }
